@@ -58,6 +58,10 @@ impl Tokenizer {
                     '/' if content_iterator.peek().map(|&(_, ch)| ch) == Some('*') => {
                         content_iterator.next(); // remove opening '*'
                         nest_lvl += 1;
+                        // a comment separates lexical items (12.1.4  ITU-T Rec. X.680)
+                        if let Some(token) = previous.take() {
+                            tokens.push(token);
+                        }
                     }
                     // asn syntax
                     ':' | ';' | '=' | '(' | ')' | '{' | '}' | '.' | ',' | '[' | ']' | '\''
